@@ -227,6 +227,7 @@ class Scheduler(object):
         self.steps += 1
         if self.steps > self.max_steps:
             self._abort(StepBudget("step budget of %d exceeded" % self.max_steps))
+        self._maybe_early_timer()
         en = self._enabled()
         if len(en) <= 1:
             return
@@ -235,6 +236,23 @@ class Scheduler(object):
             return
         self.preemptions += 1
         self._switch(me, nxt)
+
+    def _maybe_early_timer(self):
+        """Lets the earliest pending timeout expire while other threads are runnable,
+        when the chooser asks for it (timeouts otherwise expire at quiescent moments only)"""
+        early = getattr(self.chooser, "early_timer", None)
+        if early is None or not early(self):
+            return
+        timed = self.pending_timers()
+        if not timed:
+            return
+        nxt = min(timed, key=lambda t: (t.wait[1], t.tid))
+        self.clock = max(self.clock, nxt.wait[1])
+        nxt.timed_out = True
+        nxt.wait = (lambda: True, None, "timeout")
+        self.timer_fires += 1
+        self.early_timer_fires = getattr(self, "early_timer_fires", 0) + 1
+        self.emit("timer", thread=nxt.name, clock=self.clock, early=True)
 
     def block_until(self, pred, timeout=None, what=""):
         """Returns True if pred became true, False on timeout"""
@@ -271,13 +289,20 @@ class Scheduler(object):
             timed = self.pending_timers()
             if not timed:
                 return None
-            nxt = min(timed, key=lambda t: (t.wait[1], t.tid))
-            self.clock = max(self.clock, nxt.wait[1])
-            nxt.timed_out = True
-            nxt.wait = (lambda: True, None, "timeout")
-            self.timer_fires += 1
-            self.emit("timer", thread=nxt.name, clock=self.clock)
-            return nxt
+            first = min(timed, key=lambda t: (t.wait[1], t.tid))
+            deadline = first.wait[1]
+            self.clock = max(self.clock, deadline)
+            # every timeout that expires at this very instant expires: the threads become
+            # runnable together and the chooser decides who moves first
+            fired = [t for t in sorted(timed, key=lambda t: t.tid) if t.wait[1] == deadline]
+            for t in fired:
+                t.timed_out = True
+                t.wait = (lambda: True, None, "timeout")
+                self.timer_fires += 1
+                self.emit("timer", thread=t.name, clock=self.clock)
+            if len(fired) == 1:
+                return first
+            return self._choose(self.current, fired, "quiescent")
 
     def _pick_and_switch(self, me):
         en = self._enabled()
@@ -724,9 +749,15 @@ def load_sim_modules(repo=None):
 class RandomWalk(object):
     """Uniform choice at every contested point from Random(seed)"""
 
-    def __init__(self, seed, stay_bias=0.0):
+    def __init__(self, seed, stay_bias=0.0, early=0.0):
         self.rnd = random.Random(seed)
         self.stay_bias = stay_bias
+        # probability, at each scheduling point, that the earliest pending timeout expires now
+        # although other threads are runnable (time passes while they run)
+        self.early = early
+
+    def early_timer(self, sched):
+        return self.early > 0 and self.rnd.random() < self.early
 
     def __call__(self, n, me, en, why, sched):
         if self.stay_bias and me in en and why not in ("block", "exit", "quiescent") and self.rnd.random() < self.stay_bias:
@@ -784,7 +815,7 @@ def make_chooser(spec):
     """spec: ("random", seed, stay_bias) | ("preempt", [(k, j), ...], rotate) | ("prefix", [tids])"""
     kind = spec[0]
     if kind == "random":
-        return RandomWalk(spec[1], spec[2] if len(spec) > 2 else 0.0)
+        return RandomWalk(spec[1], spec[2] if len(spec) > 2 else 0.0, spec[3] if len(spec) > 3 else 0.0)
     if kind == "preempt":
         return PreemptionList(spec[1], spec[2] if len(spec) > 2 else 0)
     if kind == "prefix":
